@@ -248,6 +248,7 @@ func CheckCase(c Case) *ev.Violation {
 	if t.Errors() == nil {
 		w.errs0 = nil
 	}
+	gen.ScrambleRowsCopy(t) // what the table and its cells hand out (row list, line lists) is the caller's to overwrite
 	if v := w.snapshot("before any render"); v != nil {
 		return ev.V("harness model disagrees with the freshly built table: %s", v.Msg)
 	}
@@ -270,6 +271,8 @@ func CheckCase(c Case) *ev.Violation {
 	}
 	long := map[string]auto.RenderTable{}
 	var kept *texttable.TextTable
+	var keptStyle string
+	var keptKnown bool
 	seq := 0
 	for i, a := range c.Acts {
 		switch a.K {
@@ -301,31 +304,49 @@ func CheckCase(c Case) *ev.Violation {
 		case "restyle":
 			if kept == nil {
 				kept = texttable.Wrap(t)
+				keptStyle, keptKnown = "utf8-heavy", true // the default decoration
 			}
 			known := false
 			for _, s := range TextStyles {
 				known = known || s == a.Style
 			}
+			// a.I odd: the selection is made on a by-value copy of the wrapper; the kept wrapper is none the wiser
+			target := kept
+			if a.I%2 == 1 {
+				cp := *kept
+				target = &cp
+			}
 			switch {
 			case known && a.Reuse:
-				kept.SetDecoration(decoration.Named(a.Style))
+				target.SetDecoration(decoration.Named(a.Style))
 			case known:
-				kept.SetDecorationNamed(a.Style)
+				target.SetDecorationNamed(a.Style)
 			case a.Reuse:
-				kept.SetDecoration(decoration.EmptyDecoration)
+				target.SetDecoration(decoration.EmptyDecoration)
 			default:
-				kept.SetDecorationNamed(a.Style)
+				target.SetDecorationNamed(a.Style)
 			}
-			out, err := kept.Render()
-			if !known {
-				if err == nil || out != "" {
-					return ev.V("act %d: the kept text wrapper, pointed at the unknown/empty decoration %q, rendered: err=%v output=%q", i+1, a.Style, err, out)
+			if target == kept {
+				keptStyle, keptKnown = a.Style, known
+			}
+			type sel struct {
+				w     *texttable.TextTable
+				style string
+				known bool
+				what  string
+			}
+			for _, x := range []sel{{target, a.Style, known, "the wrapper just pointed at it"}, {kept, keptStyle, keptKnown, "the kept wrapper"}} {
+				out, err := x.w.Render()
+				if !x.known {
+					if err == nil || out != "" {
+						return ev.V("act %d: %s, last pointed at the unknown/empty decoration %q, rendered: err=%v output=%q", i+1, x.what, x.style, err, out)
+					}
+					continue
 				}
-				break
-			}
-			want := reference(a.Style)
-			if (err != nil) != (want.err != nil) || out != want.out {
-				return ev.V("act %d: the kept text wrapper, now pointed at %s (by object: %v), renders differently (err %v) from the same content rendered once in that style on a fresh table (err %v)\n--- got\n%s\n--- want\n%s", i+1, a.Style, a.Reuse, err, want.err, out, want.out)
+				want := reference(x.style)
+				if (err != nil) != (want.err != nil) || out != want.out {
+					return ev.V("act %d: %s, last pointed at %s (this act: %s, by object: %v, on a by-value copy: %v), renders differently (err %v) from the same content rendered once in that style on a fresh table (err %v)\n--- got\n%s\n--- want\n%s", i+1, x.what, x.style, a.Style, a.Reuse, a.I%2 == 1, err, want.err, out, want.out)
+				}
 			}
 		case "faulty":
 			var rw auto.RenderTable
